@@ -48,6 +48,9 @@ def run(rep, tier):
     rep.cov["traces_validated_against_impl"] = len(cases)
     rep.cov["exhaustive"] = True
     rep.cov["rule"] = RULE03
+    # the same functions inside the system model: servers exchanging signed PDUs, receipt checks, alterations in flight
+    from checks import fed
+    fed.run_part(rep, "C03", tier)
     rep.assumptions += ["SHA-256 and Ed25519 are abstract injective functions in the model; real keys in the harness",
                         "keys whose mutation changes the required signers or the redaction table (type, sender, event_id, membership, "
                         "join_authorised_via_users_server, third_party_invite as a whole) are not mutated"]
